@@ -83,7 +83,7 @@ Section Spec.
 
   (* the resource the request is for: registered resource -> (proxy) -> unknown-resource handler
      with the WELLKNOWN flag -> built-in /.well-known/core -> unknown-resource handler *)
-  Definition sp_target : dp_target := dp_lookup cfg sp_forward code (dp_uri_path opts).
+  Definition sp_target : dp_target := dp_lookup cfg sp_forward code (dp_uri_path cfg opts).
   Definition sp_found : bool := match sp_target with TNone => false | _ => true end.
 
   Definition sp_applies (e : dp_err) : bool :=
